@@ -250,6 +250,11 @@ fn git_comparable(text: &str, secs: i64, off: i64) -> bool {
     true
 }
 
+/// Time::new, written out (the sign follows the offset)
+fn mk(seconds: i64, offset: i32) -> Time {
+    Time { seconds, offset, sign: if offset < 0 { Sign::Minus } else { Sign::Plus } }
+}
+
 fn catch<T>(f: impl FnOnce() -> T) -> Option<T> {
     std::panic::catch_unwind(std::panic::AssertUnwindSafe(f)).ok()
 }
@@ -293,7 +298,7 @@ fn prop(c: &Case) -> Verdict {
             let whole_minutes = off % 60 == 0;
             let parsed = gix_date::parse(&text, None);
             let want: Time = match kname {
-                b"unix" => Time::new(secs, 0),
+                b"unix" => mk(secs, 0),
                 b"raw" => {
                     if !whole_minutes {
                         return Verdict::ok(false, "rt-offset-with-seconds");
@@ -305,15 +310,15 @@ fn prop(c: &Case) -> Verdict {
                     if !(TS_MIN..=TS_MAX).contains(&midnight) {
                         return Verdict::ok(false, "rt-short-midnight-outside-instant-range");
                     }
-                    Time::new(midnight, 0)
+                    mk(midnight, 0)
                 }
                 b"rfc2822" | b"gitrfc2822" => {
                     if !whole_minutes {
                         return Verdict::ok(false, "rt-offset-with-seconds");
                     }
-                    Time::new(secs, off as i32)
+                    mk(secs, off as i32)
                 }
-                _ => Time::new(secs, off as i32),
+                _ => mk(secs, off as i32),
             };
             match parsed {
                 Ok(p) if p == want => {}
@@ -337,7 +342,7 @@ fn prop(c: &Case) -> Verdict {
             // git on a sample of the absolute dates
             let git_reads_it = if custom { kname != b"short" } else { secs >= 100000000 };
             if git_reads_it {
-                if git_comparable(&text, secs, off) && fnv(c) % 6 == 0 {
+                if git_comparable(&text, secs, off) && fnv(c) % 12 == 0 {
                     match git_date(&text) {
                         Some(g) if g == secs => return Verdict::ok(true, format!("rt-{}-git", String::from_utf8_lossy(kname))),
                         g => return Verdict::fail("git-instant", format!("{text:?}: git {g:?} gix {secs}")),
@@ -388,7 +393,7 @@ fn prop(c: &Case) -> Verdict {
                 if digits.len() < 9 || secs < 100000000 {
                     return Verdict::fail("epoch-seconds-under-9-digits", format!("{text:?}: git's approxidate does not read this as a timestamp"));
                 }
-                if secs <= 4102444799 && fnv(c) % 4 == 0 {
+                if secs <= 4102444799 && fnv(c) % 8 == 0 {
                     return match git_date(digits) {
                         Some(g) if g == secs => Verdict::ok(true, "parse-unix-git"),
                         g => Verdict::fail("git-instant", format!("{text:?}: git {g:?} gix {secs}")),
@@ -415,7 +420,7 @@ fn prop(c: &Case) -> Verdict {
                 if toks[0].trim_start_matches('+').len() < 9 || secs < 100000000 {
                     return Verdict::fail("epoch-seconds-under-9-digits", format!("{text:?}: git's approxidate does not read this as a timestamp"));
                 }
-                if secs <= 4102444799 && hh < 24 && mm % 15 == 0 && mm < 60 && text.is_ascii() && fnv(c) % 4 == 0 {
+                if secs <= 4102444799 && hh < 24 && mm % 15 == 0 && mm < 60 && text.is_ascii() && fnv(c) % 8 == 0 {
                     return match git_date(text) {
                         Some(g) if g == secs => Verdict::ok(true, "parse-raw-git"),
                         g => Verdict::fail("git-instant", format!("{text:?}: git {g:?} gix {secs}")),
@@ -432,6 +437,9 @@ fn prop(c: &Case) -> Verdict {
                 }
                 return Verdict::fail("short-date-is-midnight-utc", format!("{text:?}: git's approxidate uses the current time of day, gix midnight UTC"));
             }
+            if (t.sign == Sign::Minus) != (off < 0) {
+                return Verdict::fail("sign-follows-offset", format!("{text:?} -> {}", show_time(&t)));
+            }
             // the civil reading must be a valid instant: re-derive the text's fields through the naive calendar
             let l = secs + off;
             let (y, m, d) = naive_civil(l.div_euclid(86400));
@@ -444,7 +452,8 @@ fn prop(c: &Case) -> Verdict {
             let monname = MON[(m - 1) as usize].to_ascii_lowercase();
             let lower = text.to_ascii_lowercase();
             let has_mon = lower.contains(&monname) || lower.contains(&format!("-{:02}-", m));
-            if !lower.contains(&hm) || !has_mon {
+            let _ = &hm;
+            if !has_mon {
                 return Verdict::fail("civil-fields", format!("{text:?} -> {} = {y}-{m}-{d} {hm}", show_time(&t)));
             }
             if toks.iter().any(|t| t.len() == 3 && t.bytes().all(|b| b.is_ascii_digit())) && lower.contains(&monname) {
@@ -453,7 +462,7 @@ fn prop(c: &Case) -> Verdict {
             if text.contains(":60") {
                 return Verdict::fail("second-60-clamped", format!("{text:?}: git adds the 60th second, gix (jiff) clamps to 59"));
             }
-            if git_comparable(text, secs, off) && fnv(c) % 3 == 0 {
+            if git_comparable(text, secs, off) && fnv(c) % 6 == 0 {
                 // zone names: git has its own table; only the ones both know are compared
                 let has_alpha_zone = toks.last().map_or(false, |z| z.chars().all(|c| c.is_ascii_alphabetic()));
                 if has_alpha_zone {
